@@ -154,8 +154,19 @@ class Check(PropertyCheck):
                   "the Http1 conversion with HTTP/2 (covered), the aioquic H3 framing is not. Trailers are only required to "
                   "survive HTTP/2 -> HTTP/2 (oracle + model): mitmproxy has no HTTP/1 trailer support, an HTTP/1 hop is "
                   "treated as unable to carry them. The Lean reference reader refuses obs-fold (stricter than the Python one). "
-                  "The rig runs HttpLayer in transparent mode over plain TCP; mitmproxy's own error pages are outside the "
-                  "conversion oracle.")
+                  "The rig runs HttpLayer in transparent mode over plain TCP. LENIENT BRANCHES of the oracle, all of "
+                  "them: (1) mitmproxy's own error pages (error hook fired and connection closed) are not judged as converted "
+                  "messages; (2) an incomplete upstream HTTP/1 request / unended HTTP/2 request stream is tolerated only when the "
+                  "exchange did NOT complete (no request hook or an error hook); (3) the scheme is compared only when the client "
+                  "said http (transparent mode takes it from the transport); (4) HTTP/1-sourced messages are compared field by "
+                  "field only if the strict reference reader accepts the bytes the harness sent (HTTP/1 ambiguities are C01); "
+                  "(5) no body comparison for HEAD/204/304/1xx towards or from HTTP/1 (framing is still checked); (6) Host and the "
+                  "framing fields are compared as authority / by framing, not as ordinary fields, cookies as their '; ' join; "
+                  "hop-by-hop fields may disappear HTTP/1 -> HTTP/2; (7) replays are judged only when the first pass was clean; "
+                  "(8) the recorded findings F-C06a..e, each excused only for its exact input class AND failure clause AND "
+                  "bytes written (known_selftest with near misses runs on every start). Timing: the response may complete "
+                  "before, between or after the pieces of a streamed request body, with a second exchange in between "
+                  "(HTTP/2 upstream); flow-control windows smaller than the bodies on the HTTP/2 sides.")
     technique = "Lean 4 proof (printer/parser round trip against a reference parser, by induction over header lists) + differential model-vs-code correspondence through the real HTTP layers"
     rule = ("one exchange per case over (cv, sv) in {1,2}^2: ~65% well-formed messages from a field pool (mixed-case names, "
             "several Cookie fields, Host/:authority variants, bodies with and without Content-Length, trailers), ~25% one "
